@@ -381,6 +381,18 @@ func (st *State) enterBlock() bool {
 				st.assumeAll(env.defs)
 				st.u.addObl(st, "loop-step", pfx+"/"+clauseName(c), fr.block.Instrs[0].Pos(), t, false)
 			}
+			for _, c := range ls.Foreach {
+				kt, ok := fr.foreachKey[li.ordinal]
+				if !ok {
+					continue
+				}
+				q := c.E
+				env := st.newEnv(fr, nil)
+				env.vars[q.Bound[0].Name] = Value{T: mathInt, Tm: kt}
+				t := env.evalBool(q.Args[0])
+				st.assumeAll(env.defs)
+				st.u.addObl(st, "loop-step", pfx+"/foreach:"+clauseName(c), fr.block.Instrs[0].Pos(), t, false)
+			}
 			for _, c := range ls.Steps {
 				if le.head == nil {
 					continue
@@ -1530,6 +1542,11 @@ func (u *Unit) checkPost(st *State, res []Value, pos token.Pos) {
 		st.assumeAll(env.defs)
 	}
 	for _, c := range u.spec.Ensures {
+		if strings.HasPrefix(c.Label, "?") {
+			// trusted clause (e.g. determinism of a pure constructor): assumed by callers, not checked here
+			u.eng.assumes["trusted postcondition clause "+c.Label+" of "+u.key+": "+trunc(c.Text, 160)] = true
+			continue
+		}
 		env := st.newEnv(fr, res)
 		env.post = true
 		t := env.evalBool(c.E)
